@@ -119,14 +119,17 @@ def gen_def(rng, indent, name, first=None, depth=0, allow_nested=True):
             s += (" = " if with_ann else "=") + p["default"]
         return s
     with_ann = typed == "ann"
-    parts = ([first] if first and not any(l.endswith("@staticmethod") for l in lines) else []) + [render(p, with_ann) for p in ps]
+    # annotations need not be uniform: a positional parameter may lack one, a keyword-only one may be the only annotated parameter
+    parts = ([first] if first and not any(l.endswith("@staticmethod") for l in lines) else []) + \
+        [render(p, with_ann and rng.random() < 0.9) for p in ps]
+    kw_ann = with_ann or (typed != "ann" and rng.random() < 0.3)
     if extra["vararg"]:
         parts.append("*rest")
         feats.add("vararg")
     if extra["kwonly"]:
         if not extra["vararg"]:
             parts.append("*")
-        parts.append(render(extra["kwonly"], with_ann))
+        parts.append(render(extra["kwonly"], kw_ann))
         feats.add("kwonly")
     if extra["kwarg"]:
         parts.append("**options")
@@ -531,6 +534,7 @@ def run_case(c):
     e_in, e_out = erased(src), erased(out)
     if dump(e_in) != dump(e_out):
         di, do = def_index(e_in), def_index(e_out)
+        raw_in, raw_out = def_index(ast.parse(src)), def_index(ast.parse(out))
         found = False
         for q in di:
             if q not in do:
@@ -553,8 +557,15 @@ def run_case(c):
                 kinds.append("body")
             if kinds and set(kinds) <= {"defaults", "vararg", "kwonly", "kwarg"} and reprinted(a.args, b.args):
                 found = True
+                # why was the header re-printed?  On the pinned tree only because an annotation of a positional parameter was added
+                # or removed; a re-print with the positional annotations unchanged is a different (new) behaviour
+                ra, rb = raw_in.get(q), raw_out.get(q)
+                same_pos = ra is not None and rb is not None and \
+                    [(x.arg, ast.dump(x.annotation) if x.annotation else None) for x in ra.args.args] == \
+                    [(x.arg, ast.dump(x.annotation) if x.annotation else None) for x in rb.args.args]
+                why = "/positional-annotations-unchanged" if same_pos else ""
                 for k in kinds:
-                    res["problems"].append(("program/header-reprint-drops-" + k, {"def": q, "before": sig(a),
+                    res["problems"].append(("program/header-reprint-drops-" + k + why, {"def": q, "before": sig(a),
                                                                                   "after": sig(b)}))
             elif kinds:
                 found = True
